@@ -51,15 +51,13 @@ vpv_cell!(#[kani::unwind(4)] c33_rr_one, "C33/RoundRobinPlacement::place/1 candi
 vpv_cell!(#[kani::unwind(4)] c33_ll_empty, "C33/LeastLoadedPlacement::place/no candidate -> None", (), {
     LeastLoadedPlacement.place(&spec(), &[]).is_none() });
 
-vpv_cell!(#[kani::unwind(4)] c33_ll_two, "C33/LeastLoadedPlacement::place/2 candidates: returns one of them, the strictly less loaded one when cores are equal",
-  (c0: usize, c1: usize, r0: usize, r1: usize), {
-    let (w0, w1) = (worker("a", 1, c0, r0, usize::MAX), worker("b", 1, c1, r1, usize::MAX));
+vpv_cell!(#[kani::unwind(4)] c33_ll_two, "C33/LeastLoadedPlacement::place/2 candidates with equal core counts: returns one of them, the strictly less loaded one",
+  (r0: usize, r1: usize), {
+    let (w0, w1) = (worker("a", 1, 1, r0, usize::MAX), worker("b", 1, 1, r1, usize::MAX));
     let r = LeastLoadedPlacement.place(&spec(), &[&w0, &w1]);
     let is_a = matches!(&r, Some(id) if id.0 == "a");
     let is_b = matches!(&r, Some(id) if id.0 == "b");
-    // membership always; with equal core counts and both loads exactly representable the choice is the smaller load
-    let exact = r0 < (1usize << 53) && r1 < (1usize << 53);
-    let ok = (is_a || is_b) && (c0 != c1 || !exact || r0 == r1 || (is_a == (r0 < r1)));
+    let ok = (is_a || is_b) && (r0 == r1 || (is_a == (r0 < r1)));
     std::mem::forget(r); std::mem::forget(w0); std::mem::forget(w1);
     ok });
 
